@@ -651,3 +651,263 @@ func (a *Adversary) AttackSplitLocks() bool {
 	a.track()
 	return true
 }
+
+// AttackStalePolka stages, with one Byzantine validator Z among four equal ones: H1 locks A in
+// round 0 (only H1 sees Z's prevote for A; H3 prevoted nil), H2 and H3 lock B in round 1 and H2
+// commits B (only H2 sees Z's precommit), H1 and H3 move on to round 2; only then Z's round-0
+// prevote for A reaches H3 - a polka from a round EARLIER than H3's lock - and A is proposed
+// again in round 2 with Z voting for it. H3 must keep its lock on B; if it gives it up, H1 and H3
+// commit A while H2 has committed B. Returns whether the situation could be staged.
+func (a *Adversary) AttackStalePolka() bool {
+	n := a.N
+	if len(a.Byz) != 1 {
+		return false
+	}
+	Z := a.Byz[0]
+	h, ref, ok := a.syncNewHeight(8000)
+	if !ok {
+		return false
+	}
+	hon := a.Honest()
+	if len(hon) != 3 {
+		return false
+	}
+	for _, i := range hon {
+		n.FireStep(i, pbft.RoundStepNewHeight)
+	}
+	rs := ref.CS.VerifRoundState()
+	if rs.Height != h || rs.Round != 0 {
+		return false
+	}
+	vs := rs.Validators.Copy()
+	if vs.Size() != 4 || n.ValIndex(vs, Z) < 0 {
+		return false
+	}
+	for _, v := range vs.Validators {
+		if v.VotingPower != vs.Validators[0].VotingPower {
+			return false
+		}
+	}
+	prop := func(k int64) int {
+		c := vs.Copy()
+		if k > 0 {
+			c.IncrementAccum(k)
+		}
+		return a.nodeByAddr(c.Proposer().Address)
+	}
+	p0, p1, p2 := prop(0), prop(1), prop(2)
+	H1, H2, H3 := -1, -1, -1
+	for _, x := range hon {
+		for _, y := range hon {
+			for _, z := range hon {
+				if H1 >= 0 || x == y || y == z || x == z || x == p1 || z == p0 || !(p2 == Z || p2 == x) {
+					continue
+				}
+				H1, H2, H3 = x, y, z
+			}
+		}
+	}
+	if H1 < 0 {
+		return false
+	}
+	fail := func() bool { a.FairSuffix(h, 8000); return false }
+	nilID := types.BlockID{}
+	vote := func(typ byte, r int64, id types.BlockID) *Env {
+		a.ByzVotes++
+		return n.Publish(Z, true, &pbft.VoteMessage{Vote: n.SignVote(vs, Z, h, r, typ, id)})
+	}
+	from := func(kind string, r int64, senders ...int) func(e *Env) bool {
+		return func(e *Env) bool {
+			if e.H != h || e.R != r || e.Kind != kind || e.Byz {
+				return false
+			}
+			for _, s := range senders {
+				if e.From == s {
+					return true
+				}
+			}
+			return false
+		}
+	}
+	one := func(x *Env) func(e *Env) bool { return func(e *Env) bool { return e.ID == x.ID } }
+	propAndParts := func(r int64) func(e *Env) bool {
+		return func(e *Env) bool { return e.H == h && e.R == r && (e.Kind == "proposal" || e.Kind == "part") }
+	}
+	at := func(i int, r int64) bool {
+		s := n.Nodes[i].CS.VerifRoundState()
+		return s.Height == h && s.Round == r
+	}
+	lockedOn := func(i int, r int64, hash []byte) bool {
+		s := n.Nodes[i].CS.VerifRoundState()
+		return s.LockedBlock != nil && s.LockedRound == r && bytes.Equal(s.LockedBlock.Hash(), hash)
+	}
+	// ---- round 0
+	if p0 == Z {
+		_, px := a.MakeBlock(ref, Z, []types.Tx{types.Tx(fmt.Sprintf("stale-A-%d", h))})
+		if px == nil {
+			return false
+		}
+		a.publishProposal(Z, h, 0, px, -1, types.BlockID{})
+	}
+	n.FireStep(H3, pbft.RoundStepPropose) // H3 gives up waiting: prevotes nil
+	for pass := 0; pass < 3; pass++ {
+		n.DeliverMatching(H1, propAndParts(0))
+		n.DeliverMatching(H2, propAndParts(0))
+	}
+	r1s := n.Nodes[H1].CS.VerifRoundState()
+	if r1s.ProposalBlock == nil || r1s.ProposalBlockParts == nil || !r1s.ProposalBlockParts.IsComplete() {
+		return fail()
+	}
+	A := types.BlockID{Hash: r1s.ProposalBlock.Hash(), PartsHeader: r1s.ProposalBlockParts.Header()}
+	partsA := r1s.ProposalBlockParts
+	zPV0 := vote(types.VoteTypePrevote, 0, A)
+	n.DeliverMatching(H1, from("prevote", 0, H2))
+	n.DeliverMatching(H1, one(zPV0))
+	n.DeliverMatching(H2, from("prevote", 0, H1, H3))
+	n.FireStep(H2, pbft.RoundStepPrevoteWait)
+	n.DeliverMatching(H3, from("prevote", 0, H1, H2))
+	n.FireStep(H3, pbft.RoundStepPrevoteWait)
+	if !lockedOn(H1, 0, A.Hash) || n.Nodes[H2].CS.VerifRoundState().LockedBlock != nil || n.Nodes[H3].CS.VerifRoundState().LockedBlock != nil {
+		return fail()
+	}
+	vote(types.VoteTypePrecommit, 0, nilID)
+	for _, i := range hon {
+		n.DeliverMatching(i, func(e *Env) bool { return e.H == h && e.R == 0 && e.Kind == "precommit" })
+		n.FireStep(i, pbft.RoundStepPrecommitWait)
+	}
+	if !at(H1, 1) || !at(H2, 1) || !at(H3, 1) {
+		return fail()
+	}
+	// ---- round 1
+	if p1 == Z {
+		_, py := a.MakeBlock(n.Nodes[H2], Z, []types.Tx{types.Tx(fmt.Sprintf("stale-B-%d", h))})
+		if py == nil {
+			return fail()
+		}
+		a.publishProposal(Z, h, 1, py, -1, types.BlockID{})
+	}
+	for pass := 0; pass < 3; pass++ {
+		for _, i := range hon {
+			n.DeliverMatching(i, propAndParts(1))
+		}
+	}
+	r2s := n.Nodes[H2].CS.VerifRoundState()
+	if r2s.ProposalBlock == nil || bytes.Equal(r2s.ProposalBlock.Hash(), A.Hash) {
+		return fail()
+	}
+	B := types.BlockID{Hash: r2s.ProposalBlock.Hash(), PartsHeader: r2s.ProposalBlockParts.Header()}
+	zPV1 := vote(types.VoteTypePrevote, 1, B)
+	n.DeliverMatching(H2, from("prevote", 1, H3))
+	n.DeliverMatching(H2, one(zPV1))
+	n.DeliverMatching(H3, from("prevote", 1, H2))
+	n.DeliverMatching(H3, one(zPV1))
+	n.DeliverMatching(H1, from("prevote", 1, H2, H3))
+	n.FireStep(H1, pbft.RoundStepPrevoteWait)
+	if !lockedOn(H2, 1, B.Hash) || !lockedOn(H3, 1, B.Hash) || !lockedOn(H1, 0, A.Hash) {
+		return fail()
+	}
+	zPC1 := vote(types.VoteTypePrecommit, 1, B)
+	n.DeliverMatching(H2, from("precommit", 1, H3))
+	n.DeliverMatching(H2, one(zPC1)) // H2 commits B
+	n.DeliverMatching(H3, from("precommit", 1, H2, H1))
+	n.FireStep(H3, pbft.RoundStepPrecommitWait)
+	n.DeliverMatching(H1, from("precommit", 1, H2, H3))
+	n.FireStep(H1, pbft.RoundStepPrecommitWait)
+	if n.Nodes[H2].Store.Height() < h || !at(H1, 2) || !at(H3, 2) {
+		return fail()
+	}
+	// ---- round 2: the straggler from round 0, and A again
+	n.DeliverMatching(H3, one(zPV0))
+	if p2 == Z {
+		a.publishProposal(Z, h, 2, partsA, 0, A)
+	}
+	for pass := 0; pass < 3; pass++ {
+		n.DeliverMatching(H1, propAndParts(2))
+		n.DeliverMatching(H3, propAndParts(2))
+	}
+	vote(types.VoteTypePrevote, 2, A)
+	vote(types.VoteTypePrecommit, 2, A)
+	for pass := 0; pass < 3; pass++ {
+		for _, i := range []int{H1, H3} {
+			n.DeliverMatching(i, func(e *Env) bool { return e.H == h && e.R == 2 && (e.Kind == "prevote" || e.Kind == "precommit") })
+		}
+	}
+	a.track()
+	return true
+}
+
+// AttackEquivocalCommit: every honest validator precommits X; at H1 the Byzantine validator Z is
+// first seen precommitting nil, then a peer claims +2/3 for X (what a VoteSetMaj23 message does),
+// then Z's second, conflicting precommit for X arrives and counts, and one more honest precommit
+// completes +2/3 for X with Z's vote needed. H1 commits; the commit it stores and later proposes as
+// LastCommit must carry Z's precommit for X, not the nil one. Needs four equal validators, one Byzantine.
+func (a *Adversary) AttackEquivocalCommit() bool {
+	n := a.N
+	if len(a.Byz) != 1 {
+		return false
+	}
+	Z := a.Byz[0]
+	h, ref, ok := a.syncNewHeight(8000)
+	if !ok {
+		return false
+	}
+	hon := a.Honest()
+	if len(hon) != 3 {
+		return false
+	}
+	for _, i := range hon {
+		n.FireStep(i, pbft.RoundStepNewHeight)
+	}
+	rs := ref.CS.VerifRoundState()
+	if rs.Height != h || rs.Round != 0 {
+		return false
+	}
+	vs := rs.Validators.Copy()
+	if vs.Size() != 4 || n.ValIndex(vs, Z) < 0 {
+		return false
+	}
+	for _, v := range vs.Validators {
+		if v.VotingPower != vs.Validators[0].VotingPower {
+			return false
+		}
+	}
+	if p0 := a.nodeByAddr(vs.Proposer().Address); p0 == Z {
+		_, px := a.MakeBlock(ref, Z, []types.Tx{types.Tx(fmt.Sprintf("eqc-X-%d", h))})
+		if px == nil {
+			return false
+		}
+		a.publishProposal(Z, h, 0, px, -1, types.BlockID{})
+	}
+	for pass := 0; pass < 3; pass++ {
+		for _, i := range hon {
+			n.DeliverMatching(i, func(e *Env) bool {
+				return e.H == h && e.R == 0 && (e.Kind == "proposal" || e.Kind == "part" || (e.Kind == "prevote" && !e.Byz))
+			})
+		}
+	}
+	H1 := hon[a.Rng.Intn(len(hon))]
+	r1 := n.Nodes[H1].CS.VerifRoundState()
+	if r1.Height != h || r1.LockedBlock == nil || r1.LockedBlockParts == nil {
+		a.FairSuffix(h, 8000)
+		return false
+	}
+	X := types.BlockID{Hash: r1.LockedBlock.Hash(), PartsHeader: r1.LockedBlockParts.Header()}
+	zNil := n.Publish(Z, true, &pbft.VoteMessage{Vote: n.SignVote(vs, Z, h, 0, types.VoteTypePrecommit, types.BlockID{})})
+	n.DeliverMatching(H1, func(e *Env) bool { return e.ID == zNil.ID })
+	r1.Votes.SetPeerMaj23(0, types.VoteTypePrecommit, fmt.Sprintf("peer%d", Z), X)
+	a.Claims++
+	zX := n.Publish(Z, true, &pbft.VoteMessage{Vote: n.SignVote(vs, Z, h, 0, types.VoteTypePrecommit, X)})
+	n.DeliverMatching(H1, func(e *Env) bool { return e.ID == zX.ID })
+	a.ByzVotes += 2
+	// one more honest precommit for X: +2/3 only together with Z's second vote
+	done := false
+	n.DeliverMatching(H1, func(e *Env) bool {
+		if done || e.H != h || e.R != 0 || e.Kind != "precommit" || e.Byz || e.Block != blockHex(X) {
+			return false
+		}
+		done = true
+		return true
+	})
+	a.track()
+	return n.Nodes[H1].Store.Height() >= h
+}
